@@ -107,8 +107,9 @@ PROGFUZZ = {
         level="exploration",
         rule=("Programs: a positive (usually recursive) or lattice bottom plus 1-3 upper strata whose rules aggregate or negate "
               "relations of strictly lower strata (stratifiable by construction); aggregators count, sum, min, max, mean, "
-              "percentile(p<100), explicit not(), !r(..), and two user aggregators (top2: returns up to two values; collect_len: "
-              "multiplicity sensitive); every argument of the aggregated clause is bound / wildcard / constant / expression / "
+              "percentile(p<100), explicit not(), !r(..), and three user aggregators (top2: returns up to two values; collect_len: "
+              "multiplicity sensitive; min_max: one (lo, hi) tuple destructured by a tuple pattern, with a later clause joined on one "
+              "of the two variables); every argument of the aggregated clause is bound / wildcard / constant / expression / "
               "aggregated at random; aggregation over lattices included. Oracle: reference stratified model. Non-trivial: an "
               "aggregate group with >= 2 tuples was evaluated, or a negation was true for some bindings and false for others, "
               "and >= 1 tuple was derived; distinct (program text, input) pairs."),
@@ -154,7 +155,9 @@ PROGFUZZ = {
               "values, row multisets); a panic is a violation. Non-trivial: a push after a run whose consequences need a join with "
               "tuples stored by an earlier run (reference: some new tuple is derivable neither before the push nor from the pushed "
               "facts alone), or for idempotence a re-run of a program with aggregates / negation on >= 2 input rows; distinct "
-              "(program text, initial facts, history)."),
+              "(program text, initial facts, history). Every third program writes the default provider out, every fifth is built around "
+              "a BYODS relation; a history whose final model the bounded reference evaluator gives up on is skipped (and counted) "
+              "before any compiled program runs."),
         assumptions=["rustc compiles the generated crate faithfully", "the reference evaluator is correct", "pushes go to plain relations only (a caller cannot push a second row for a lattice key)"],
     ),
     "C14": dict(
@@ -184,7 +187,9 @@ PROGFUZZ = {
               "reference evaluator's result on what that instance was given (hence what it computes alone), with the row-multiset "
               "check; panics (shard-count asserts, frozen / unfrozen unwraps) are violations. Non-trivial: a parallel instance is "
               "involved and either >= 2 overlapping instances use different pool sizes or its construction / run pools differ in "
-              "size; distinct scenarios."),
+              "size; distinct scenarios. Every second program also has a member with #![inter_rule_parallelism], and about 40 % of the "
+              "later instances of a scenario are twins of the first one (another value of the same generated type with its own inputs "
+              "and pools)."),
         assumptions=["thread interleavings are sampled, not enumerated", "rustc compiles the generated crate faithfully", "the reference evaluator is correct"],
     ),
     "C06": dict(
@@ -198,7 +203,9 @@ PROGFUZZ = {
               "reference): every variant's result, mapped back through its renaming, equals the reference result of the base; the "
               "engine's transforms are self-checked by evaluating the variant AST with the reference too. Non-trivial: >= 1 derived "
               "tuple and some variant's plan (summary(): index sets, simple-join status, rule / SCC order) differs from the base's "
-              "or hash placement changes (renamed constants / input order); distinct (program text, input) pairs."),
+              "or hash placement changes (renamed constants / input order); distinct (program text, input) pairs. Every sixth base has "
+              "in-program macros (always with the renaming variant), every seventh is built around an eqrel / trrel / trrel_uf relation, "
+              "every second also runs as ascent_par!."),
         assumptions=["rustc compiles the generated crate faithfully", "the reference evaluator is correct", "constant renaming only for the uninterpreted fragment, as the property states"],
     ),
     "C07": dict(
@@ -221,7 +228,10 @@ PROGFUZZ = {
               "fragment, an expr parameter for a constant / expression argument, every other identifier of the body is macro-local), "
               "plus a nested macro (passes its parameters on and adds a clause with local variables x, y, z), a head macro, and extra "
               "call sites: the same macro once or twice in one rule, with arguments drawn from a pool of five variable names shared "
-              "with the macro bodies (x, y, z, w, v), so that call-site variables are regularly spelled like macro-local ones. Oracle "
+              "with the macro bodies (x, y, z, w, v), so that call-site variables are regularly spelled like macro-local ones; a "
+              "two-hop macro with a local join variable invoked twice in a rule, inside and after disjunctions, from a wrapper macro whose "
+              "own local is spelled the same or with a digit suffix (x / x1 / x2), and in a form whose local is bound in one disjunct "
+              "only. Oracle "
               "(real rustc, span identity matters): compiled macro program = compiled hand expansion (the engine's reference expander: "
               "parameters substituted, body-local identifiers fresh per invocation) = reference evaluator on the expansion. "
               "Non-trivial: >= 1 derived tuple and the input distinguishes the hygienic reading from the capturing one (the "
@@ -249,21 +259,21 @@ PROGFUZZ = {
     "C10": dict(
         quick=dict(programs=90, cases=25), thorough=dict(programs=1000, cases=100),
         level="exploration",
-        rule="Program skeletons around a tagged relation R (binary R(T,T) and ternary R(K,T,T), T = u32): feeders: from inputs, recursive through nxt / through another relation, staged by a tick relation that advances inside R's stratum (facts for the same key / class arrive over many iterations), key-to-key propagation for the ternary form (keys pause and resume), readers that feed R again; readers with every bound-column subset (free, first, second, both, repeated variable R(x,x), constant, wildcard; with and without the key), R as first, second or third clause, !R(..) and count() over R in a later stratum. Inputs: small graphs with chains, cycles, self loops, back edges, several keys. Oracle: the reference evaluator on the same program with R closed explicitly after every round (eqrel: reflexive on mentioned elements, symmetric, transitive, per key), observed through plain relations (R's own field is a FakeVec); a panic is a violation. Non-trivial: facts reach R in >= 2 distinct rounds of its stratum; distinct (program text, input) pairs.; every fourth binary program also as ascent_par! in pools 1, 2, 4, 8 with perturbation",
+        rule="Program skeletons around a tagged relation R (binary R(T,T) and ternary R(K,T,T), T = u32): feeders: from inputs, recursive through nxt / through another relation, staged by a tick relation that advances inside R's stratum (facts for the same key / class arrive over many iterations), key-to-key propagation for the ternary form (keys pause and resume), readers that feed R again; readers with every bound-column subset (free, first, second, both, repeated variable R(x,x), constant, wildcard; with and without the key), R as first, second or third clause or followed by a further clause, three-clause rules with the key free and one or both value columns bound, !R(..) and count() over R (through either column) in a later stratum; a collapse feeder (a hub related to something gets related to every element inside the stratum); a sparse ternary form (one or two constant edges under every key: many keys, few nodes); every third program has a single-pattern profile (all readers use one access pattern, no negation / counting, so the provider builds only the indices of that pattern; the arity x pattern profiles are enumerated by program index). Inputs: small graphs with chains, cycles, self loops, back edges, several keys. Oracle: the reference evaluator on the same program with R closed explicitly after every round (eqrel: reflexive on mentioned elements, symmetric, transitive, per key), observed through plain relations (R's own field is a FakeVec); a panic is a violation. Non-trivial: facts reach R in >= 2 distinct rounds of its stratum; distinct (program text, input) pairs.; every fourth binary program also as ascent_par! in pools 1, 2, 4, 8 with perturbation",
         assumptions=["rustc compiles the generated crate faithfully", "the reference evaluator and its explicit closure (engine/core/src/eval.rs close_ds) are correct",
                      "element type u32; access patterns limited to those the provider macros accept"],
     ),
     "C11": dict(
         quick=dict(programs=90, cases=25), thorough=dict(programs=1000, cases=100),
         level="exploration",
-        rule="Program skeletons around a tagged relation R (binary R(T,T) and ternary R(K,T,T), T = u32): feeders: from inputs, recursive through nxt / through another relation, staged by a tick relation that advances inside R's stratum (facts for the same key / class arrive over many iterations), key-to-key propagation for the ternary form (keys pause and resume), readers that feed R again; readers with every bound-column subset (free, first, second, both, repeated variable R(x,x), constant, wildcard; with and without the key), R as first, second or third clause, !R(..) and count() over R in a later stratum. Inputs: small graphs with chains, cycles, self loops, back edges, several keys. Oracle: the reference evaluator on the same program with R closed explicitly after every round (trrel: transitive closure per key, so cycles imply (x,x)), observed through plain relations (R's own field is a FakeVec); a panic is a violation. Non-trivial: facts reach R in >= 2 distinct rounds of its stratum; distinct (program text, input) pairs.",
+        rule="Program skeletons around a tagged relation R (binary R(T,T) and ternary R(K,T,T), T = u32): feeders: from inputs, recursive through nxt / through another relation, staged by a tick relation that advances inside R's stratum (facts for the same key / class arrive over many iterations), key-to-key propagation for the ternary form (keys pause and resume), readers that feed R again; readers with every bound-column subset (free, first, second, both, repeated variable R(x,x), constant, wildcard; with and without the key), R as first, second or third clause or followed by a further clause, three-clause rules with the key free and one or both value columns bound, !R(..) and count() over R (through either column) in a later stratum; a collapse feeder (a hub related to something gets related to every element inside the stratum); a sparse ternary form (one or two constant edges under every key: many keys, few nodes); every third program has a single-pattern profile (all readers use one access pattern, no negation / counting, so the provider builds only the indices of that pattern; the arity x pattern profiles are enumerated by program index). Inputs: small graphs with chains, cycles, self loops, back edges, several keys. Oracle: the reference evaluator on the same program with R closed explicitly after every round (trrel: transitive closure per key, so cycles imply (x,x)), observed through plain relations (R's own field is a FakeVec); a panic is a violation. Non-trivial: facts reach R in >= 2 distinct rounds of its stratum; distinct (program text, input) pairs.",
         assumptions=["rustc compiles the generated crate faithfully", "the reference evaluator and its explicit closure (engine/core/src/eval.rs close_ds) are correct",
                      "element type u32; access patterns limited to those the provider macros accept"],
     ),
     "C12": dict(
         quick=dict(programs=90, cases=25), thorough=dict(programs=1000, cases=100),
         level="exploration",
-        rule="Program skeletons around a tagged relation R (binary R(T,T) and ternary R(K,T,T), T = u32): feeders: from inputs, recursive through nxt / through another relation, staged by a tick relation that advances inside R's stratum (facts for the same key / class arrive over many iterations), key-to-key propagation for the ternary form (keys pause and resume), readers that feed R again; readers with every bound-column subset (free, first, second, both, repeated variable R(x,x), constant, wildcard; with and without the key), R as first, second or third clause, !R(..) and count() over R in a later stratum. Inputs: small graphs with chains, cycles, self loops, back edges, several keys. Oracle: the reference evaluator on the same program with R closed explicitly after every round (trrel_uf: reflexive on mentioned elements + transitive, per key), observed through plain relations (R's own field is a FakeVec); a panic is a violation. Non-trivial: facts reach R in >= 2 distinct rounds of its stratum; distinct (program text, input) pairs.",
+        rule="Program skeletons around a tagged relation R (binary R(T,T) and ternary R(K,T,T), T = u32): feeders: from inputs, recursive through nxt / through another relation, staged by a tick relation that advances inside R's stratum (facts for the same key / class arrive over many iterations), key-to-key propagation for the ternary form (keys pause and resume), readers that feed R again; readers with every bound-column subset (free, first, second, both, repeated variable R(x,x), constant, wildcard; with and without the key), R as first, second or third clause or followed by a further clause, three-clause rules with the key free and one or both value columns bound, !R(..) and count() over R (through either column) in a later stratum; a collapse feeder (a hub related to something gets related to every element inside the stratum); a sparse ternary form (one or two constant edges under every key: many keys, few nodes); every third program has a single-pattern profile (all readers use one access pattern, no negation / counting, so the provider builds only the indices of that pattern; the arity x pattern profiles are enumerated by program index). Inputs: small graphs with chains, cycles, self loops, back edges, several keys. Oracle: the reference evaluator on the same program with R closed explicitly after every round (trrel_uf: reflexive on mentioned elements + transitive, per key), observed through plain relations (R's own field is a FakeVec); a panic is a violation. Non-trivial: facts reach R in >= 2 distinct rounds of its stratum; distinct (program text, input) pairs.",
         assumptions=["rustc compiles the generated crate faithfully", "the reference evaluator and its explicit closure (engine/core/src/eval.rs close_ds) are correct",
                      "element type u32; access patterns limited to those the provider macros accept"],
     ),
@@ -639,8 +649,8 @@ LIBPROPS = {
         assumptions=["PartialEq / Debug of the shipped types are trusted", "full-width integers and large sets are sampled, the listed small carriers are exhaustive"]),
     "C17": dict(level="exploration",
         rule=("Multisets of i64 (empty, singleton, 2-200 elements, small ranges with duplicates, constant, sorted, reversed), p drawn "
-              "from {0, 100, uniform [0,100], k*100/len +- 1e-9}, iterators with and without an exact size_hint (count branches on "
-              "it). Oracle: own definitions on a sorted copy (min, max, sum, cardinality, sum/n for mean on values < 1000, percentile = "
+              "from {0, 100, uniform [0,100], k*100/len +- 1e-9}, the same multiset handed over through seven iterator shapes with truthful size hints (exact; (0, n); (n/2, n); "
+              "(1, n); a peeked filter; (n, None); (n - n/2, n): count branches on the hint). Oracle: own definitions on a sorted copy (min, max, sum, cardinality, sum/n for mean on values < 1000, percentile = "
               "element of rank min(floor(n*p/100), n-1), not = one unit iff empty; empty-input outcomes); any panic is a violation. "
               "Non-trivial: n >= 2 and (a duplicate value, or p on a rank boundary or at an end point)."),
         assumptions=["mean is compared exactly: inputs are integers below 1000 in absolute value, so the f64 sum is exact"]),
